@@ -32,7 +32,7 @@ use vmodel::*;
 pub fn spec() -> PropSpec {
     PropSpec {
         id: "C13",
-        rule: "cases: signed operands as two's-complement limb vectors at 1,2,3,4,8,16 limbs (mixed widths for mul / resize) drawn from the named edge values (MIN, MIN+1, MIN+2, -1, 0, 1, MAX, MAX-1, +-2^(B/2), +-(2^(B/2)+-1), +-2^(B-2), +-2), limb patterns (shape L) and random bit lengths (shape T) with a random sign, sign-extended single words, any bit pattern, values a few steps from MIN/MAX; add/sub pairs constructed so that a+b or a-b lands exactly on MAX, MAX+1, MIN, MIN-1, 0 (a = -b), +-1; mul pairs constructed as powers of two whose product is exactly +-2^(B-1) / +-2^B (+-1), as (x, floor(2^(B-1)/x) + {-1,0,1}) with every sign combination, as a bit budget bits(a)+bits(b) <= B-1, and special operand (MIN, -1, MAX, 0, 1) times anything; (magnitude, sign) inputs around 2^(B-1) with either sign including negative zero; resize sources at the signed boundaries of every narrower target width; primitives at their MIN/MAX/+-2^k. Every API form of the family is checked on the same operands against BigInt. non-trivial (per family): add/sub/neg: one of a+b, a-b, -a, -b is outside [MIN,MAX] or within 1 of MIN or MAX, or an operand is MIN or -1; mul: the exact product a*b or a*u is outside [MIN,MAX] of the result width or within 1 of MIN/MAX, or an operand is MIN or -1 (squares: a^2 >= 2^BITS - 1, the range of the returned Uint, or operand in {MIN,-1}); widening mul: the exact product does not fit the lhs width, or an operand is MIN or -1; abs/sign: operand within 1 of MIN/MAX or -1, or the (magnitude, sign) input is unrepresentable, or its value is within 1 of MIN/MAX, or it is negative zero; resize: the value does not fit some target width, or is within 1 of MIN/MAX of the source or a target width, or is -1, or is negative and widened (sign extension); primitives: value within 1 of the primitive's MIN/MAX, or -1, or negative with a target wider than the primitive (sign extension), or does not fit the target. distinct by the operand limbs (+ widths via the sub-check). surface/* (API-surface audit): the same case functions at 5, 6, 7, 9, 32, 64 limbs and resize targets 5, 6, 7, 9, 32 (rule of the reused family); routes (generic-function, method-call, Into, ConstCtOption / CtOption / Checked conversions): one of a+b, a-b, -a, m*n, m*u is outside [MIN,MAX] or within 1 of MIN/MAX, or an operand is MIN or -1; history (Checked / Wrapping accumulators over 2..6 steps of + - * select with a per-step operator form, operands steered to MAX, MAX+1, MIN, MIN-1, 0): some step overflowed or a partial result is within 1 of MIN/MAX; views (AsRef / AsMut / as_*_mut): the written word flips the sign or the value before / after is within 1 of MIN/MAX or -1; nonzero-abs-sign: operand within 1 of MIN/MAX or -1.",
+        rule: "cases: signed operands as two's-complement limb vectors at 1,2,3,4,8,16 limbs (mixed widths for mul / resize) drawn from the named edge values (MIN, MIN+1, MIN+2, -1, 0, 1, MAX, MAX-1, +-2^(B/2), +-(2^(B/2)+-1), +-2^(B-2), +-2), limb patterns (shape L) and random bit lengths (shape T) with a random sign, sign-extended single words, any bit pattern, values a few steps from MIN/MAX; add/sub pairs constructed so that a+b or a-b lands exactly on MAX, MAX+1, MIN, MIN-1, 0 (a = -b), +-1; mul pairs constructed as powers of two whose product is exactly +-2^(B-1) / +-2^B (+-1), as (x, floor(2^(B-1)/x) + {-1,0,1}) with every sign combination, as a bit budget bits(a)+bits(b) <= B-1, and special operand (MIN, -1, MAX, 0, 1) times anything; (magnitude, sign) inputs around 2^(B-1) with either sign including negative zero; resize sources at the signed boundaries of every narrower target width; primitives at their MIN/MAX/+-2^k. Every API form of the family is checked on the same operands against BigInt. non-trivial (per family): add/sub/neg: one of a+b, a-b, -a, -b is outside [MIN,MAX] or within 1 of MIN or MAX, or an operand is MIN or -1; mul: the exact product a*b or a*u is outside [MIN,MAX] of the result width or within 1 of MIN/MAX, or an operand is MIN or -1 (squares: a^2 >= 2^BITS - 1, the range of the returned Uint, or operand in {MIN,-1}); widening mul: the exact product does not fit the lhs width, or an operand is MIN or -1; abs/sign: operand within 1 of MIN/MAX or -1, or the (magnitude, sign) input is unrepresentable, or its value is within 1 of MIN/MAX, or it is negative zero; resize: the value does not fit some target width, or is within 1 of MIN/MAX of the source or a target width, or is -1, or is negative and widened (sign extension); primitives: value within 1 of the primitive's MIN/MAX, or -1, or negative with a target wider than the primitive (sign extension), or does not fit the target. distinct by the operand limbs (+ widths via the sub-check). surface/* (API-surface audit): the same case functions at 5, 6, 7, 9, 32, 64 limbs and resize targets 5, 6, 7, 9, 32 (rule of the reused family); routes (generic-function, method-call, Into, ConstCtOption / CtOption / Checked conversions): one of a+b, a-b, -a, m*n, m*u is outside [MIN,MAX] or within 1 of MIN/MAX, or an operand is MIN or -1; history (Checked / Wrapping accumulators over 2..6 steps of + - * select with a per-step operator form, operands steered to MAX, MAX+1, MIN, MIN-1, 0): some step overflowed or a partial result is within 1 of MIN/MAX; views (AsRef / AsMut / as_*_mut): the written word flips the sign or the value before / after is within 1 of MIN/MAX or -1; nonzero-abs-sign: operand within 1 of MIN/MAX or -1. Since seeding round 4: exact factorisations k x (T/k) of T = 2^bound + {-1,0,1} for multiplication, and the source-literal dictionary for add/sub pairs.",
         assumptions: vec![
             "num-bigint BigInt arithmetic is correct (independent implementation)".into(),
             "bridging uses from_words/to_words/as_words only; the oracle never calls crypto-bigint arithmetic".into(),
